@@ -26,7 +26,7 @@ def corpus_cases():
 
 
 def run(ctx, prop_files, flavours, n_quick, n_thorough, what, note=None):
-    proof = vlib.coq_prove(ctx, prop_files, leaves=['queue', 'queueconc'])
+    proof = vlib.coq_prove(ctx, prop_files, leaves=['queue', 'queueconc', 'locks'])
     res = vlib.build_many(ctx, [dict(name='qconc', src='qconc.cpp', defs=[])])
     binary, err = res['qconc']
     if binary is None:
